@@ -528,7 +528,7 @@ def generate(seed, tier):
     # more memoised sub-problems in one process than any one schedule creates (the memo is a module-level dictionary shared by all
     # objects): the closed-form column s = 1, every n in turn
     g.add("fn.mixed_step_memoization", "V memosweep 2 %d 1" % (140000 if thorough else 70000))
-    for n, s in [(40, 4), (150, 1), (66000, 1), (70000, 1)] + ([(120, 6), (100000, 1)] if thorough else []):
+    for n, s in [(40, 4), (150, 1), (66000, 1), (70000, 1)] + ([(120, 6), (100000, 1), (2300, 2)] if thorough else []):   # (2300, 2): costs beyond 10**5 with a split search
         g.add("fn.mixed_steps_tabulation", "V tabmemo %d %d" % (n, s))
     for n in range(2, 31 if thorough else 19):
         for ram in range(1, 4):
